@@ -636,6 +636,7 @@ func (c *Ctx) checkParserStopOrder(rule string) {
 	}
 	addNext := c.fn("Lexer.AddNextStream")
 	lexReset := c.fn("Lexer.Reset")
+	yieldFld := c.field("Parser", "yield")
 	var methods []*ssa.Function
 	for _, f := range c.zygoFuncs() {
 		if f.Parent() == nil && isMethodOf(f, parserT) {
@@ -660,6 +661,9 @@ func (c *Ctx) checkParserStopOrder(rule string) {
 		case *ssa.Store:
 			if fa, ok := x.Addr.(*ssa.FieldAddr); ok && faField(fa) == sendMe {
 				return "installs a new reply accumulator"
+			}
+			if fa, ok := x.Addr.(*ssa.FieldAddr); ok && yieldFld != nil && faField(fa) == yieldFld && isNilConst(x.Val) {
+				return "clears the yield function the coroutine still calls while it unwinds"
 			}
 		case ssa.CallInstruction:
 			if g := x.Common().StaticCallee(); g != nil {
